@@ -1,21 +1,42 @@
 #!/bin/bash
-# Re-verifies every archived seeded change against the CURRENT checks: applies
-# /verif/seeded/<id>/patch.diff to /repo, runs the named check(s) (quick), undoes it.
-# usage: reseed.sh [seed-id ...]
-cd /verif/seeded || exit 2
-IDS="$@"; [ -z "$IDS" ] && IDS=$(ls -d C*-* | sort)
-for s in $IDS; do
+# Re-verifies every archived seeded change against the CURRENT checks without touching /repo:
+# each seed's patch.diff is applied in a scratch worktree of /repo's HEAD, the named check(s)
+# are built against that worktree (scratch mode of /verif/check) and run in the quick tier.
+# usage: reseed.sh [-j N] [seed-id ...]      (C20 seeds always run one at a time, last)
+# Worktrees and outputs live under /tmp/reseed-* and are removed at the end.
+J=3
+if [ "$1" = "-j" ]; then J="$2"; shift; shift; fi
+IDS="$@"; [ -z "$IDS" ] && IDS=$(cd /verif/seeded && ls -d C*-* | sort)
+HEAD=$(git -C /repo rev-parse HEAD)
+one() {
+  s="$1"; slot="$2"
+  wt=/tmp/reseed-wt-$slot; out=/tmp/reseed-out-$slot
+  [ -d "$wt" ] || git -C /repo worktree add -q --detach "$wt" "$HEAD" || { echo "$s: no worktree"; return; }
   prop=${s%%-*}
   checks=$(python3 -c "import json;print(' '.join(json.load(open('/verif/seeded/$s/meta.json')).get('run_checks',['$prop'])))")
-  cd /repo && git diff --quiet || { echo "/repo dirty"; exit 2; }
-  { git apply /verif/seeded/$s/patch.diff 2>/dev/null || git apply -3 /verif/seeded/$s/patch.diff 2>/dev/null; } || { echo "$s: patch does not apply"; git checkout -q -- .; git reset -q; continue; }
+  cd "$wt" && git checkout -q -- . && git clean -fdq
+  { git apply /verif/seeded/$s/patch.diff 2>/dev/null || git apply -3 /verif/seeded/$s/patch.diff 2>/dev/null; } || { echo "$s: patch does not apply"; git checkout -q -- .; git reset -q; return; }
   git reset -q
   res=""
   for c in $checks; do
-    out=$(/verif/check $c quick 2>&1)
-    n=$(echo "$out" | grep -a -c "^VIOLATION")
-    res="$res $c:violations=$n"
+    o=$(VERIF_SCRATCH_REPO=$wt VERIF_SCRATCH_OUT=$out /verif/check $c quick 2>&1)
+    n=$(echo "$o" | grep -a -c "^VIOLATION")
+    b=$(echo "$o" | grep -a -c "^BUILD-FAILED")
+    res="$res $c:violations=$n"; [ "$b" != 0 ] && res="$res(BUILD-FAILED)"
   done
-  git checkout -- .
+  git checkout -q -- .; git clean -fdq
   echo "$s ->$res"
+}
+export -f one; export HEAD
+PAR=$(for s in $IDS; do case $s in C20-*) ;; *) echo $s;; esac; done)
+SER=$(for s in $IDS; do case $s in C20-*) echo $s;; esac; done)
+# slot = position modulo J: xargs gives each process a slot number through its own counter file
+i=0; for s in $PAR; do echo "$s $((i % J))"; i=$((i+1)); done > /tmp/reseed-list.$$
+# seeds of one slot run one after another (they share a worktree)
+for k in $(seq 0 $((J-1))); do
+  ( grep " $k\$" /tmp/reseed-list.$$ | while read s slot; do one "$s" "$slot"; done ) &
 done
+wait
+for s in $SER; do one "$s" 0; done
+rm -f /tmp/reseed-list.$$
+for k in $(seq 0 $((J-1))); do git -C /repo worktree remove --force /tmp/reseed-wt-$k 2>/dev/null; rm -rf /tmp/reseed-out-$k; done
